@@ -306,11 +306,9 @@ Qed.
 
 (* no binary floating point number equals 1/10: whatever float() returns for Decimal('0.1'),
    Decimal(that double) differs from Decimal('0.1') *)
-Theorem decimal_via_float_refuted_lemma :
-  exists d, forall to_double, decimal_roundtrip_file_equal to_double d = false.
+Lemma tenth_not_dyadic y : dec_dy_eqb {| d_mant := 1; d_exp := -1 |} y = false.
 Proof.
-  exists {| d_mant := 1; d_exp := -1 |}. intros f. unfold decimal_roundtrip_file_equal, dec_dy_eqb.
-  cbn [d_mant d_exp]. destruct (f _) as [k e]. cbn [y_num y_exp].
+  unfold dec_dy_eqb. cbn [d_mant d_exp]. destruct y as [k e]. cbn [y_num y_exp].
   apply Z.eqb_neq. change (pos_part (-1)) with 0. change (pos_part (- -1)) with 1.
   intros H. unfold pos_part in H. destruct (Z_lt_le_dec 0 e).
   - rewrite (Z.max_r (- e) 0), (Z.max_l e 0) in H by lia.
@@ -320,7 +318,63 @@ Proof.
     change (2 ^ 0) with 1 in H. change (10 ^ 0) with 1 in H. change (10 ^ 1) with 10 in H. lia.
 Qed.
 
-(* when float() is exact on d (d is a binary double), the config-file round trip is lossless *)
-Theorem decimal_exact_roundtrip_lemma (to_double : decimal -> dyadic) d :
-  dec_dy_eqb d (to_double d) = true -> decimal_roundtrip_file_equal to_double d = true.
-Proof. auto. Qed.
+Theorem decimal_via_float_refuted_lemma :
+  exists d, forall to_double to_text, decimal_file_equal to_double to_text RegFloat d = false.
+Proof.
+  exists {| d_mant := 1; d_exp := -1 |}. intros f g. unfold decimal_file_equal, decimal_serialize.
+  destruct (f _) as [y|]; [apply tenth_not_dyadic | reflexivity].
+Qed.
+
+Lemma dec_eqb_refl d : dec_eqb d d = true.
+Proof. unfold dec_eqb. apply Z.eqb_refl. Qed.
+
+(* the repaired registration (fixes/C20-decimal-via-float.patch): every finite decimal comes back equal on
+   every channel, whatever float() and repr() do *)
+Theorem decimal_hybrid_roundtrip_lemma to_double to_text d :
+  decimal_file_equal to_double to_text RegHybrid d = true /\ decimal_argv_equal to_double to_text RegHybrid d = true.
+Proof.
+  unfold decimal_file_equal, decimal_argv_equal, decimal_serialize, text_denotes.
+  destruct (to_text d) as [t|] eqn:E.
+  - destruct (dec_eqb d t) eqn:Q; [auto | split; apply dec_eqb_refl].
+  - split; apply dec_eqb_refl.
+Qed.
+
+(* either registration, inside its guard (RegFloat: d is a binary double with <= 15 digits, on which float()
+   and repr() are exact; RegHybrid: no condition) *)
+Theorem decimal_guarded_roundtrip_lemma reg to_double to_text d :
+  float_faithful to_double to_text -> dec_class (Some reg) d = 0%N ->
+  decimal_file_equal to_double to_text reg d = true /\ decimal_argv_equal to_double to_text reg d = true.
+Proof.
+  intros F C. destruct reg; [| apply decimal_hybrid_roundtrip_lemma].
+  cbn [dec_class] in C. destruct (dec_guard d) eqn:G; [| discriminate].
+  destruct (F d G) as [[y [Ey Hy]] [t [Et Ht]]].
+  unfold decimal_file_equal, decimal_argv_equal, decimal_serialize. rewrite Ey, Et. auto.
+Qed.
+
+(* the guard is not needed for the file channel alone: Decimal(float(d)) = d as soon as float() is exact on d *)
+Theorem decimal_exact_roundtrip_lemma to_double to_text d y :
+  to_double d = Some y -> dec_dy_eqb d y = true -> decimal_file_equal to_double to_text RegFloat d = true.
+Proof. intros E H. unfold decimal_file_equal, decimal_serialize. rewrite E. exact H. Qed.
+
+(* float_faithful is satisfiable: inside the guard d IS a dyadic rational (an idealised float() returns it,
+   an idealised repr() prints it) *)
+Definition dy_of_dec (d : decimal) : option dyadic :=
+  Some (if 0 <=? d_exp d then {| y_num := d_mant d * 10 ^ d_exp d; y_exp := 0 |}
+        else {| y_num := d_mant d / 5 ^ (- d_exp d); y_exp := d_exp d |}).
+
+Lemma float_faithful_witness : float_faithful dy_of_dec (fun d => Some d).
+Proof.
+  intros d G. split; [| exists d; split; [reflexivity | apply dec_eqb_refl]].
+  unfold dy_of_dec. eexists; split; [reflexivity|].
+  unfold dec_guard in G. unfold dec_dy_eqb, pos_part.
+  destruct (0 <=? d_exp d) eqn:E.
+  - apply Z.leb_le in E. cbn [y_num y_exp]. rewrite (Z.max_l (d_exp d) 0), (Z.max_r (- d_exp d) 0) by lia.
+    change (Z.max (- 0) 0) with 0. change (Z.max 0 0) with 0. apply Z.eqb_eq. change (2 ^ 0) with 1. change (10 ^ 0) with 1. ring.
+  - apply Z.leb_gt in E. cbn [y_num y_exp]. rewrite (Z.max_r (d_exp d) 0), (Z.max_l (- d_exp d) 0) by lia.
+    apply andb_prop in G. destruct G as [_ G]. apply andb_prop in G. destruct G as [M _]. apply Z.eqb_eq in M.
+    apply Z.eqb_eq. set (k := - d_exp d) in *. change (10 ^ 0) with 1. change (2 ^ 0) with 1.
+    assert (Hk : 0 <= k) by (unfold k; lia).
+    assert (H5 : 0 < 5 ^ k) by (apply Z.pow_pos_nonneg; lia).
+    pose proof (Z.div_mod (d_mant d) (5 ^ k) ltac:(lia)) as D. rewrite M in D.
+    change 10 with (5 * 2). rewrite Z.pow_mul_l. rewrite D at 1. ring.
+Qed.
